@@ -937,19 +937,23 @@ def replay(ctx, rep):
 
 
 MANIFEST = {
-    "text": "Proof: Lean theorems about the model of the representation layer of gromov_hausdorff over Nat matrices, for graphs "
-            "of every size: the upper triangle, the symmetric closure and any re-weighting of a graph give the same undirected "
-            "adjacency and hence the same result (the result depends on the input only through `adjOf`), level-BFS distances are "
-            "exactly shortest-walk lengths and commute with every vertex relabelling, a connected graph gives the full matrix "
-            "without warning, a disconnected one gives - with the warning flag set iff it is disconnected - the square, finite, "
-            "symmetric, zero-diagonal, triangle-inequality block of its first largest component and never an error, the chosen "
-            "signed width holds every entry and every difference, the collection result is symmetric with zero diagonal for every "
-            "`estimate` and every N >= 2, each entry is the pair result under the RNG state reached at that point, and lower bounds "
-            "do not depend on the RNG state; the pre-fix rows-only fallback is shown non-square by `decide`. The model is tied to the "
-            "code on every run by exact comparison on generated graphs in all container/orientation/weight formats.",
+    "text": "Proof: 30 Lean theorems (core Lean, no Mathlib needed) about the model of the representation layer of gromov_hausdorff "
+            "over Nat matrices, for graphs of every size: the result depends on the input only through the undirected unweighted "
+            "adjacency `adjOf` (so upper-triangular, strictly upper, symmetric, re-weighted, bool/int/float and list/dense/sparse forms of "
+            "one labelled graph agree; self-loops never matter); the model's level-BFS with fuel n computes exactly the shortest-walk "
+            "lengths (none = no walk) and commutes with every vertex permutation; a connected graph gives the full matrix without "
+            "warning and equivariantly under relabelling; a disconnected one gives - warning flag set iff disconnected - the square, "
+            "finite, symmetric, zero-diagonal, positive, triangle-inequality block of shortest-walk lengths of its FIRST largest "
+            "component (labels in order of first vertex, first maximum of the counts), and no well-formed graph raises; the dtype is the "
+            "smallest signed width holding every entry and every difference; for every `estimate`, every N >= 2 and every RNG state the "
+            "collection result is N x N, symmetric, zero-diagonal, entry (i,j) is exactly the pair result in the RNG state reached at that "
+            "point, and lower bounds do not depend on the RNG state or the format; 2*mGH <= c is invariant under relabelling (spec level); "
+            "the pre-fix rows-only fallback is shown non-square by `decide`. The model is tied to the code on every run by exact comparison "
+            "(distance matrix, warning, dtype, error kind, component labels, dispatch with the recorded estimate calls replayed into the "
+            "model) on generated graphs in 15 containers x orientations x weights x relabellings.",
     "note": "Trusted: Lean kernel, axioms propext/Classical.choice/Quot.sound; the correspondence harness; scipy csgraph "
-            "shortest_path/connected_components and numpy unique/argmax/mask indexing as contracts (compared exactly on every case). "
-            "`estimate` is a parameter (C05). [T] only: bracket validity against the exhaustive mGH oracle (<= 6 vertices), container "
-            "unpacking, warnings raised by the real code.",
+            "shortest_path/connected_components and numpy unique/argmax/mask indexing/astype as contracts (compared exactly with the model "
+            "on every case). `estimate` is a parameter (its soundness is C05). [T] only: bracket validity against the exhaustive mGH oracle "
+            "(<= 6 vertices), container unpacking, warnings raised by the real code, NumPy's dtype promotion.",
     "technique": "Lean 4 theorems over a hand-written model + differential correspondence with the real code",
 }
